@@ -114,6 +114,58 @@ func TestC11LargeLog(t *testing.T) {
 			cleanup()
 		}
 	}
+	// a replay whose callback appends to the log it is reading (a projector that emits follow-up
+	// events): what was in the log when the replay began is delivered in order without a gap; whatever
+	// else is delivered are the appended events, in their order
+	for _, kind := range []string{"memory", "memory-paged", "sqlite-mem", "sqlite-file"} {
+		for _, L := range []int{100, 520, 1030} {
+			idx++
+			if !run.Mine(idx) {
+				continue
+			}
+			o, err := stores.Open(kind, scratch)
+			if err != nil {
+				t.Fatal(err)
+			}
+			for k := 1; k <= L; k++ {
+				if _, err := o.Store.Append(ctx, &ebu.Event{Type: "c11.A", Data: json.RawMessage(fmt.Sprintf(`{"ID":%d}`, k)), Timestamp: time.Unix(int64(1700000000+k), 0).UTC()}); err != nil {
+					t.Fatal(err)
+				}
+			}
+			bus := ebu.New(ebu.WithStore(o.Store))
+			var ids []int
+			appended := 0
+			err = bus.Replay(ctx, ebu.OffsetOldest, func(e *ebu.StoredEvent) error {
+				var d struct{ ID int }
+				json.Unmarshal(e.Data, &d)
+				ids = append(ids, d.ID)
+				if appended < 700 {
+					appended++
+					if _, aerr := o.Store.Append(ctx, &ebu.Event{Type: "c11.A", Data: json.RawMessage(fmt.Sprintf(`{"ID":%d}`, 100000+appended)), Timestamp: time.Unix(1, 0)}); aerr != nil {
+						return fmt.Errorf("append from the callback: %w", aerr)
+					}
+				}
+				return nil
+			})
+			bad := ""
+			for i, id := range ids {
+				want := i + 1
+				if i >= L {
+					want = 100000 + (i - L + 1)
+				}
+				if id != want {
+					bad = fmt.Sprintf("delivery #%d was event %d, event %d was due", i+1, id, want)
+					break
+				}
+			}
+			if err != nil || bad != "" || len(ids) < L {
+				run.Violation(strings.SplitN(kind, "-", 2)[0]+":replay-while-the-callback-appends", fmt.Sprintf("store %s, log of %d events, the replay callback appends one event for each of the first 700 it is given: Replay returned %v after %d deliveries; %s", kind, L, err, len(ids), bad), map[string]any{"store": kind, "log_len": L, "delivered": len(ids)})
+			}
+			run.Case(fmt.Sprintf("callback-appends|%s|L%d", kind, L), true)
+			o.Close()
+			o.Remove()
+		}
+	}
 	// durable-streams with the bus's default options (no replay batch size given): logs of up to a
 	// hundred events - one server response - are replayed completely
 	for _, L := range []int{20, 33, 60, 99, 100} {
